@@ -22,8 +22,8 @@ LEVEL = {
     "C14": ("proof", "Theorems C14_class_forms_queue_like_functions / C14_pydantic_is_one_context / C14_field_validation_is_assert_one + the same field list rendered as function, dataclass, NamedTuple and pydantic model with shuffled keyword order." + CORR, "DESIGN.md 7 C14"),
     "C15": ("proof", "Finite theorem C15_shared_dtypes_library_independent over the regenerated tables + structural theorems C15_relabelling_changes_nothing / C15_queue_level (Relabel.v: a checked call reads arrays only through shape and the class tables' answers). Correspondence: every context under three library assignments and once with arrays produced another way (layouts, strides, flags, subclasses, torch Parameter / meta, jax tracers) + exhaustive class x shared dtype x library sweep." + CORR, "DESIGN.md 7 C15"),
     "C16": ("proof", "PARTIAL. Proved: C16_exception_passthrough, C16_value_passthrough. Name/doc/signature, argument forwarding for 9 signature shapes, exception identity, method kinds, NamedTuple / 7 dataclass option sets (fields, equality, repr, isinstance, immutability, pickling) are CPython object-model behaviour without decision logic: compared against undecorated twins (a test, labelled as such).", "DESIGN.md 7 C16"),
-    "C17": ("proof", "PARTIAL. Theorems C17_field_order / C17_fresh_context_per_validation / C17_optional_none_skipped / C17_assignment_refuted (= known finding K2) + histories of constructions / model_validate / assignments, nested models, class-definition dtype cross-check; model_dump / iteration / repr compared by the harness only." + CORR, "DESIGN.md 7 C17"),
-    "C18": ("proof", "Theorems C18_symbolic and C18_shape (whole Shape[...] incl. ConstantAxis / AnonymousAxis: accepted by parse_shape, every dimension means what its axis means): for every tree Python's operators can build (non-negative constants) the printed string is accepted and evaluates to the tree's own arithmetic value (SymbolicProof.embed_correct + decimal round trip + C05). Correspondence: trees built by Python's evaluation of generated source; demanded size vs plain integer evaluation; K4 listed." + CORR, "DESIGN.md 7 C18"),
+    "C17": ("proof", "PARTIAL. Theorems C17_field_order / C17_fresh_context_per_validation / C17_optional_none_skipped / C17_class_definition / C17_assignment_refuted (= known finding K2) + histories of constructions / model_validate / assignments, nested models, validation context= dicts, 456 class definitions against the model of the class-definition dtype cross-check; model_dump / iteration / repr compared by the harness only." + CORR, "DESIGN.md 7 C17"),
+    "C18": ("proof", "Theorems C18_symbolic, C18_shape, C18_constant_axes_refused (operand dispatch: TypeError exactly for ConstantAxis / AnonymousAxis operands), C18_source_tables (whole Shape[...] incl. ConstantAxis / AnonymousAxis: accepted by parse_shape, every dimension means what its axis means): for every tree Python's operators can build (non-negative constants) the printed string is accepted and evaluates to the tree's own arithmetic value (SymbolicProof.embed_correct + decimal round trip + C05). Correspondence: trees built by Python's evaluation of generated source; demanded size vs plain integer evaluation; K4 listed." + CORR, "DESIGN.md 7 C18"),
     "C19": ("proof", "PARTIAL. Theorems C19_wrapper_transparent and C19_capture_equal (under the Section hypothesis capture_extensional about torch, named in the trusted base). torch.jit.trace / script / compile are runtime behaviour the model cannot exhibit: tested on 6 modules against undecorated twins (quick: eager, trace, script; thorough adds torch.compile).", "DESIGN.md 7 C19"),
     "C20": ("proof", "Finite theorem C20_config over coq/gen/GenConfig.v, regenerated on every run from fresh interpreters with a masking import hook (8 masks), against the hand model of the if/elif chains; plus one accepted / one rejected checked call per available library.", "DESIGN.md 7 C20"),
 }
